@@ -1359,7 +1359,21 @@ func c08K3RecoveredError(r *Run, rule string) {
 					return false
 				case *ssa.Call:
 					id := callID(&x.Call)
-					return !(id.is("errors", "", "New") || id.is("fmt", "", "Errorf") || id.is(srvPath, "", "Errorf"))
+					if id.is("errors", "", "New") || id.is("fmt", "", "Errorf") || id.is(srvPath, "", "Errorf") {
+						return false
+					}
+					// a library helper: every value it can return
+					if sc := x.Call.StaticCallee(); sc != nil && sc.Blocks != nil && strings.HasPrefix(idOf(sc).pkg, modPath) && sc.Signature.Results().Len() == 1 {
+						for _, b := range sc.Blocks {
+							if ret, ok := b.Instrs[len(b.Instrs)-1].(*ssa.Return); ok {
+								if mayNil(ret.Results[0], d+1) {
+									return true
+								}
+							}
+						}
+						return false
+					}
+					return true
 				case *ssa.MakeInterface:
 					return false
 				case *ssa.TypeAssert:
